@@ -10,8 +10,26 @@ TOL_METHODS = ('isZero', 'isMuchSmallerThan', 'isApprox', 'isApproxToConstant', 
 TOL_FUNCTIONS = ('near', 'isApprox', 'almostEqual', 'isNear', 'fuzzyCompare', 'isZero')
 
 
+def _machine_constant(e):
+    """text of a std::numeric_limits<>::epsilon()/min() based constant (possibly scaled by a literal), else None"""
+    e = strip_casts(e) if e is not None else None
+    if e is None:
+        return None
+    if e.get('k') == 'Call' and 'numeric_limits' in (e.get('fn') or '') and (e.get('fn') or '').split('::')[-1] in ('epsilon', 'min', 'denorm_min'):
+        return pp(e)
+    if e.get('k') == 'Bin' and e.get('op') in ('*', '/'):
+        l, r = _machine_constant(e.get('l')), _machine_constant(e.get('r'))
+        if (l and const_value(e.get('r')) is not None) or (r and const_value(e.get('l')) is not None and e.get('op') == '*'):
+            return pp(e)
+    return None
+
+
 def is_tolerance_test(cond):
     for y in walk(cond):
+        if y.get('k') == 'Bin' and y.get('op') in ('<', '<=') and _machine_constant(y.get('r')):
+            return 'a comparison with the absolute constant %s' % _machine_constant(y.get('r'))
+        if y.get('k') == 'Bin' and y.get('op') in ('>', '>=') and _machine_constant(y.get('l')):
+            return 'a comparison with the absolute constant %s' % _machine_constant(y.get('l'))
         if y.get('k') == 'MCall' and y.get('m') in TOL_METHODS:
             return 'the Eigen tolerance predicate %s()' % y['m']
         if y.get('k') == 'Call' and (y.get('fn') or '').split('<')[0].split('::')[-1] in TOL_FUNCTIONS:
